@@ -10,9 +10,10 @@ CONSTANTS
   CleanupInterval = 2
   Faults = TRUE
   WatermarkFirst = TRUE
+  RefCount = "pair"
 INIT Init
 NEXT Next
 VIEW view
-INVARIANTS TypeOK ReadsFlushed CrashSafe DownSafe OpenNeverFails NoRevival LiveFilesKept
-PROPERTIES FailedFlushHarmless
+INVARIANTS TypeOK ReadsFlushed CrashSafe DownSafe OpenNeverFails NoRevival LiveFilesKept RefsExact
+PROPERTIES FailedFlushHarmless CleanupKeepsLive CleanupRemovesDead
 CHECK_DEADLOCK FALSE
